@@ -21,6 +21,12 @@ THEOREMS = [
     "TornadoModel.C07.raw_fields_exact",
     "TornadoModel.C07.wsgi_fields_exact",
     "TornadoModel.C07.isToken_normalize",
+    "TornadoModel.C07.set_header_stores_any",
+    "TornadoModel.C07.add_header_stores",
+    "TornadoModel.C07.handler_values_clean",
+    "TornadoModel.C07.handler_values_valid",
+    "TornadoModel.C07.handler_reason_clean",
+    "TornadoModel.C07.handler_guard_only_names",
     "TornadoModel.C07.convert_str_clean",
     "TornadoModel.C07.convert_bytes_clean",
     "TornadoModel.C07.set_header_stores",
@@ -64,19 +70,24 @@ CLAUSE_CAVEATS = [
     "cookie expires/max_age/expires_days/httponly/secure, redirect(status=), send_error/HTTPError(reason=) are not enumerated byte-per-byte (typed values, or the same code path as set_status/set_header); "
     "they occur only in the random stream (cookie attributes) or not at all (send_error, redirect(status=))",
     "no_ctl_on_wire / exact_lines / fields_exact hold BECAUSE write_headers has the byte guard and the name check (the theorems restate those guards for every call sequence); "
-    "the per-API lemmas (convert_*_clean, checkReason_clean, redirect_location_clean) are first-line-of-defence facts, not needed for the wire theorems",
+    "what the call-time checks achieve on their own is stated separately at run level (handler_values_clean, handler_reason_clean, handler_guard_only_names: on the "
+    "RequestHandler path the guards can fire only for a header NAME); on the connection-level API the guards are the only defence",
+    "'intended' is tied to the arguments per call (set_header_stores_any, add_header_stores, redirect_location_clean, checkReason_clean) and by the independent Python oracle; "
+    "there is no single Lean theorem computing the intended multiset of lines from the argument list (cookie line contents are C25's)",
 ]
 CLAUSES = {
     "either the call is rejected with an exception or the serialized response contains exactly the intended header lines":
         "exact_lines + lines_intended + lines_nonempty + set_header_stores + convert_str_clean/convert_bytes_clean + "
-        "checkReason_clean + redirect_location_clean (a raising finish() writes nothing: by construction of the model, tie-checked); "
+        "checkReason_clean + redirect_location_clean + set_header_stores_any + add_header_stores (a raising finish() writes nothing: by construction of the model, tie-checked); "
         "field level: fields_exact / raw_fields_exact / wsgi_fields_exact (every header line reads back, by the strict field parser Spec.parseField, "
         "as exactly one (token name, value) pair of the final header map — a name like 'Set-Cookie: a=b; x' or 'X Y' ends in ValueError since the second fix: commit)",
     "no additional header line, status line or body": "exact_lines (the strict reader returns exactly the model's lines and an empty remainder)",
     "No CR, LF or NUL byte supplied by the application ever reaches the wire inside the header block":
         "no_ctl_on_wire + nul_not_in_wire (for every call sequence; holds for the tree with the D9 fix; "
         "old_guard_lets_nul_through refutes it for the guard as found, old_guard_no_crlf is the part that held)",
-    "every header-producing API (str and bytes values, reason, cookie fields, redirect url)": "tie: complete enumeration of single bytes per field",
+    "every header-producing API (str and bytes values, reason, cookie fields, redirect url)":
+        "handler_values_clean + handler_reason_clean + handler_guard_only_names (all call sequences: values and reason are made safe at call time, only a name "
+        "can make write_headers raise) + tie: complete enumeration of single bytes per field",
     "status reason supplied through the connection-level API (HTTPConnection.write_headers called by a request callback, WSGIContainer)":
         "raw_exact_lines + wsgi_exact_lines + raw_reason_clean (the unvalidated reason is stopped by the guard over the start line)",
 }
@@ -610,7 +621,7 @@ def _embed(base, ch, pos):
 FIELDS_STR = ["setHeader.name", "setHeader.value", "addHeader.name", "addHeader.value", "setStatus.reason",
               "redirect.url", "cookie.name", "cookie.value", "cookie.domain", "cookie.path", "cookie.samesite",
               "cookie.kw.Domain", "cookie.kw.Comment", "cookie.kw.Version", "cookie.kw.Expires", "cookie.kw.key",
-              "clear.name", "clear.path", "signed.name", "signed.value"]
+              "clear.name", "clear.path", "signed.name", "signed.value", "clearHeader.name"]
 FIELDS_BYTES = ["setHeader.bvalue", "addHeader.bvalue", "redirect.burl", "cookie.bname", "cookie.bvalue", "signed.bvalue"]
 
 
@@ -629,6 +640,11 @@ def field_case(field, ch, pos):
         ops = [["addHeader", "X-A", S("first")], ["addHeader", "x-a", S(e("val"))]]
     elif field == "addHeader.bvalue":
         ops = [["addHeader", "X-A", B(e(b"val"))]]
+    elif field == "clearHeader.name":
+        # set under one spelling, cleared under another: the line must be gone (or, for a name the two spellings
+        # of which normalise differently, still there); a non-token name that was NOT cleared makes finish() raise
+        ops = [["setHeader", e("X-Ab"), S("v")], ["clearHeader", e("x-ab")]] if pos != 2 else \
+              [["setHeader", "X-Ab", S("v")], ["clearHeader", e("x-ab")]]
     elif field == "setStatus.reason":
         ops = [["setStatus", 404, e("Not Found")]]
     elif field == "redirect.url":
